@@ -71,6 +71,12 @@ func (b *backoff) next(attempt int) time.Duration {
 	durf := minf * math.Pow(1.5, float64(attempt))
 	durf = durf + rand.Float64()*minf
 
+	// Clamp before converting: for large attempts durf exceeds the int64 range
+	// (or is +Inf) and the conversion would yield a negative duration.
+	if durf >= float64(b.maxDelay) {
+		return b.maxDelay
+	}
+
 	delay := time.Duration(durf)
 
 	if delay > b.maxDelay {
